@@ -14,7 +14,7 @@ def build_files(sc, sid):
     xdir, xpkg, xname = {
         "sibling": ("p", "p", "b.go"), "test": ("p", "p", "b_test.go"), "xtest": ("p", "p_test", "x_test.go"),
         "tdpath": ("xtestdatax", "q", "q.go"), "genpath": ("zzgen", "q", "q.go"),
-        "genfile": ("p", "p", "b_zzgen.go"), "genfirst": ("p", "p", "0_zzgen.go"),
+        "genfile": ("p", "p", "b_zzgen.go"), "genfirst": ("p", "p", "0_zzgen.go"), "gentest": ("p", "p", "b_zzgen_test.go"),
     }[cls]
     x = []
     if s["ign"]:
@@ -28,6 +28,9 @@ def build_files(sc, sid):
         x.append("\t_ = d.TF(4)")
         where["X2"] = ("%s/%s" % (xdir, xname), len(x), "TONL02")
         x += ["}", ""]
+        x.append("var xg = d.TF(6)")
+        where["X3"] = ("%s/%s" % (xdir, xname), len(x), "TONL02")
+        x.append("")
     x.append("var _ d.S")
     xsrc = "\n".join(x) + "\n"
     # ---- a.go
